@@ -198,11 +198,13 @@ theorem C12_enable_path_witness :
 
 /-- a class with methods: ONE construction with exactly the constructor's parameters bound from the values given for
     the constructor, then ONE call of the chosen method with exactly its own parameters bound from the values given for
-    it; the result is the method's return value -/
+    it; the result is the method's return value (`hmn`: no method is called `config` — `_run_component` pops that key, see
+    `C12_other_findings_witness`) -/
 theorem C12_class (body : Body) (asPos : Bool) (c : String) (init : Sig) (m0 : Method) (ms : List Method)
     (g : Given) (r : Run)
     (hd : distinctNames init = true) (hr : noReserved init = true)
     (hdm : ∀ md ∈ m0 :: ms, distinctNames md.sig = true) (hrm : ∀ md ∈ m0 :: ms, noConfigParam md.sig = true)
+    (hmn : ∀ md ∈ m0 :: ms, md.name ≠ "config")
     (h : autoCli body asPos (.cls c init (m0 :: ms)) g = .ok r) :
     ∃ m md a1 a2, g.method = some m ∧ md ∈ m0 :: ms ∧ md.name = m
       ∧ Cli.bind init g.top = some a1 ∧ Cli.bind md.sig g.sub = some a2
@@ -211,82 +213,7 @@ theorem C12_class (body : Body) (asPos : Bool) (c : String) (init : Sig) (m0 : M
   split at h
   · cases h
   · rename_i cfg hcfg
-    -- at the root a method called `config` cannot be chosen (parse_args dies): drop it from the list of candidates
-    have hnc := method_not_config_of_root asPos c init m0 ms g cfg hcfg
-    -- re-run the general lemma with the name hypothesis restricted to the chosen method
-    simp only [parseComp] at hcfg
-    split at hcfg
-    · cases hcfg
-    split at hcfg
-    · cases hcfg
-    split at hcfg
-    · cases hcfg
-    rename_i hnosub
-    split at hcfg
-    · cases hcfg
-    rename_i m hm
-    split at hcfg
-    · cases hcfg
-    rename_i md hfind
-    split at hcfg
-    · cases hcfg
-    rename_i vals hf
-    split at hcfg
-    · cases hcfg
-    rename_i hcrash
-    split at hcfg
-    · cases hcfg
-    rename_i sub hfs
-    cases hcfg
-    have hmdmem : md ∈ m0 :: ms := List.mem_of_find?_eq_some hfind
-    have hmdname : md.name = m := by simpa using List.find?_some hfind
-    obtain ⟨_, hkeys, _⟩ := fill_ok asPos init g.top vals hf
-    obtain ⟨_, hskeys, _⟩ := fill_ok asPos md.sig g.sub sub hfs
-    have hc : "config" ∉ vals.map (·.1) := hkeys ▸ names_of_noReserved init hr _ "config" (by decide)
-    have hs : "subcommand" ∉ vals.map (·.1) := hkeys ▸ names_of_noReserved init hr _ "subcommand" (by decide)
-    have hmc : m ≠ "config" := fun e => hnc (e ▸ hm)
-    have hmnv : m ∉ vals.map (·.1) := by
-      intro hmem
-      obtain ⟨e, he, hek⟩ := List.mem_map.mp hmem
-      simp only [Bool.true_or, Bool.and_true, Bool.or_eq_true, List.any_eq_true, beq_iff_eq, not_or, not_exists,
-        not_and] at hcrash
-      exact hcrash.1 e he hek
-    have hms : m ≠ "subcommand" := by
-      intro e
-      subst e
-      simp only [List.any_eq_true, beq_iff_eq, not_exists, not_and] at hnosub
-      exact hnosub md hmdmem hmdname
-    have hsc : "config" ∉ sub.map (·.1) := by
-      rw [hskeys]
-      intro hmem
-      obtain ⟨p, hp, hpn⟩ := List.mem_map.mp hmem
-      have := hrm md hmdmem
-      simp only [noConfigParam, List.all_eq_true, bne_iff_ne, ne_eq] at this
-      exact this p (List.mem_filter.mp hp).1 hpn
-    have hfilter : vals.filter (fun e => e.1 != "subcommand") = vals := by
-      apply List.filter_eq_self.mpr
-      intro e he
-      have : e.1 ≠ "subcommand" := fun h' => hs (List.mem_map.mpr ⟨e, he, h'⟩)
-      simp [this]
-    have hS : ((if (!(md.sig.any fun p => p.name == "config") && !(parserOfSig asPos md.sig).isEmpty) = true
-          then [([m, "config"], g.cfgSub)] else []) : Cfg) = [] ∨
-        ∃ c2, ((if (!(md.sig.any fun p => p.name == "config") && !(parserOfSig asPos md.sig).isEmpty) = true
-          then [([m, "config"], g.cfgSub)] else []) : Cfg) = [([m, "config"], c2)] := by
-      split
-      · exact Or.inr ⟨_, rfl⟩
-      · exact Or.inl rfl
-    simp only [Bool.true_or, if_true, hfilter] at h
-    rw [runComponent_cls body c init (m0 :: ms) vals sub m _ _ (Or.inr ⟨g.cfgTop, rfl⟩) hS hc hs hmnv hmc hms hsc] at h
-    simp only [hfind] at h
-    split at h
-    · cases h
-    rename_i a1 hb1
-    split at h
-    · cases h
-    rename_i a2 hb2
-    cases h
-    exact ⟨m, md, a1, a2, hm, hmdmem, hmdname, bind_of_fill_pyBind asPos init g.top vals a1 hd hf hb1,
-      bind_of_fill_pyBind asPos md.sig g.sub sub a2 (hdm md hmdmem) hfs hb2, rfl, rfl⟩
+    exact run_cls body asPos true c init m0 ms g cfg r hd hr hdm hrm hmn hcfg h
 
 /-- a class without public methods is run by constructing it once; `auto_cli` returns the instance -/
 theorem C12_class_plain (body : Body) (asPos : Bool) (c : String) (init : Sig) (g : Given) (r : Run)
@@ -466,13 +393,19 @@ theorem C12_reserved_method_config_witness :
         { top := [], method := some "m", sub := [("config", .tok "3")] }
       = .ok ⟨[⟨.init "A", []⟩, ⟨.method "A" "m", [("config", .tok "5")]⟩], .tok "m"⟩ := by decide
 
-/-- a chosen method whose name is also a constructor parameter (or is `config`): `parse_args` dies (open finding
-    C12-subcommand-name-is-parent-dest); a private `Optional` parameter without default is neither offered nor
-    optional for Python (open finding C12-private-optional) -/
+/-- a chosen method whose name is also a constructor parameter: a parse error ("Expected the settings of subcommand … to be
+    a mapping"); a method called `config` parses and is then run with its DEFAULTS whatever was given, because
+    `_run_component` pops the key `config` — its whole sub-namespace — before the call; with a `--config` at that level it
+    is a parse error (open finding C12-subcommand-name-is-parent-dest); a private `Optional` parameter without default is
+    neither offered nor optional for Python (open finding C12-private-optional) -/
 theorem C12_other_findings_witness :
     autoCli exBody true (.cls "B" [⟨"run", .posOrKw, some (.tok "1"), false⟩] [⟨"run", []⟩]) { top := [], method := some "run" }
-      = .error .crash
-    ∧ autoCli exBody true (.cls "K" [] [⟨"config", []⟩, ⟨"other", []⟩]) { top := [], method := some "config" } = .error .crash
+      = .error .parse
+    ∧ autoCli exBody true (.cls "K" [] [⟨"config", [⟨"x", .posOrKw, some (.tok "2"), false⟩]⟩, ⟨"other", []⟩])
+        { top := [], method := some "config", sub := [("x", .tok "5")] }
+      = .ok ⟨[⟨.init "K", []⟩, ⟨.method "K" "config", [("x", .tok "2")]⟩], .tok "config"⟩
+    ∧ autoCli exBody true (.cls "K" [] [⟨"config", []⟩, ⟨"other", []⟩])
+        { top := [], method := some "config", cfgTop := .tok "cfg" } = .error .parse
     ∧ autoCli exBody true (.func "f" [⟨"_x", .posOrKw, .none, true⟩]) { top := [] } = .error .typeError := by decide
 
 end Jap.Props.C12
